@@ -346,3 +346,30 @@ Qed.
 
 Example fold_conditions_example : fold_conditions 4 4 1 16 7 0 1 0 0 = true.    (* VALID, 7 taps padded to 8 *)
 Proof. vm_compute. reflexivity. Qed.
+
+(* ---------- PRELU ---------- *)
+Theorem prelu_as_max_lemma a d x : 0 < d -> a <= d -> Z.max (a * x) (d * x) = prelu_val a d x.
+Proof. intros Hd Ha. unfold prelu_val. destruct (Z.leb_spec 0 x); nia. Qed.
+
+Theorem prelu_as_relu_plus_min_lemma a d x : d * Z.max x 0 + a * Z.min x 0 = prelu_val a d x.
+Proof. unfold prelu_val. destruct (Z.leb_spec 0 x); [rewrite Z.max_l, Z.min_r by lia | rewrite Z.max_r, Z.min_l by lia]; lia. Qed.
+
+(* the slope condition cannot be dropped: above 1 the maximum picks the wrong branch *)
+Theorem prelu_as_max_needs_slope_below_one_lemma : exists a d x, 0 < d /\ Z.max (a * x) (d * x) <> prelu_val a d x.
+Proof. exists 3, 2, (-1). split; [lia|]. vm_compute. discriminate. Qed.
+
+Lemma zmax_list_ge l v : In v l -> v <= zmax_list l.
+Proof.
+  unfold zmax_list. generalize (hd 0 l) as h. induction l as [|a l IH]; intros h Hin; [destruct Hin|].
+  cbn [fold_right]. destruct Hin as [->|Hin]; [lia|]. specialize (IH h Hin). lia.
+Qed.
+
+Theorem prelu_kind_max_sound_lemma codes zp sn sd :
+  0 < sn -> 0 < sd -> prelu_kind codes zp sn sd = 2 ->
+  forall c, In c codes -> (c - zp) * sn < sd.
+Proof.
+  intros Hn Hd. unfold prelu_kind.
+  destruct (zmin_list codes - zp =? zmax_list codes - zp); [destruct (_ =? 0); discriminate|].
+  destruct (Z.ltb_spec ((zmax_list codes - zp) * sn) sd) as [H|H]; [|discriminate].
+  intros _ c Hc. pose proof (zmax_list_ge codes c Hc). nia.
+Qed.
